@@ -484,3 +484,113 @@ func trunc(s string, n int) string {
 	}
 	return s
 }
+
+// ---------------------------------------------------------------- segmented length prefixes
+
+// SegmentSpec: a publish whose 4-byte length field reaches nsqd in two pieces (TCP
+// segmentation), with nsqd sending a frame to that same connection in between.
+type SegmentSpec struct {
+	Cmd     string `json:"cmd"`     // pub | dpub | mpub
+	Field   int    `json:"field"`   // mpub: 0 body size, 1 message count, 2 first message size, 3 second message size
+	Split   int    `json:"split"`   // bytes of the field in the first piece (1..3)
+	Between string `json:"between"` // message | heartbeat | none
+}
+
+func (s SegmentSpec) String() string {
+	return fmt.Sprintf("%s field%d split%d between=%s", s.Cmd, s.Field, s.Split, s.Between)
+}
+
+func RunSegmented(spec SegmentSpec) vx.Out {
+	var viol []vx.Found
+	bad := func(clause, f string, a ...interface{}) {
+		viol = append(viol, vx.Found{Sig: clause + " :: segmented " + spec.String(), Detail: fmt.Sprintf(f, a...)})
+	}
+	w, err := NewWorld(FreshDir(), WOpts{MemQ: 100, MsgTimeout: 60 * time.Second})
+	if err != nil {
+		return vx.Out{Obs: "world: " + err.Error(), Viol: []vx.Found{{Sig: "INFRA world :: segmented", Detail: err.Error()}}}
+	}
+	defer w.Release()
+	x := w.Dial("x")
+	if f := x.Identify(map[string]interface{}{"client_id": "x", "output_buffer_size": -1, "heartbeat_interval": 1000}); string(f.Data) != "OK" {
+		return vx.Out{Obs: "identify refused", Viol: []vx.Found{{Sig: "INFRA identify :: segmented", Detail: f.String()}}}
+	}
+	x.Cmd("SUB t c", nil)
+	x.Next()
+	x.Cmd("RDY 10", nil)
+	w.Quiesce()
+	p := w.Dial("p")
+	b1, b2 := pattern(300), pattern(700)
+	// the byte stream of the command, and the offset of the length field that is split
+	var stream bytes.Buffer
+	want := [][]byte{b1}
+	fieldOff := 0
+	switch spec.Cmd {
+	case "pub":
+		stream.WriteString("PUB t\n")
+		fieldOff = stream.Len()
+		binary.Write(&stream, binary.BigEndian, int32(len(b1)))
+		stream.Write(b1)
+	case "dpub":
+		stream.WriteString("DPUB t 50\n")
+		fieldOff = stream.Len()
+		binary.Write(&stream, binary.BigEndian, int32(len(b1)))
+		stream.Write(b1)
+	case "mpub":
+		stream.WriteString("MPUB t\n")
+		offs := []int{stream.Len()}
+		binary.Write(&stream, binary.BigEndian, int32(4+4+len(b1)+4+len(b2)))
+		offs = append(offs, stream.Len())
+		binary.Write(&stream, binary.BigEndian, int32(2))
+		offs = append(offs, stream.Len())
+		binary.Write(&stream, binary.BigEndian, int32(len(b1)))
+		stream.Write(b1)
+		offs = append(offs, stream.Len())
+		binary.Write(&stream, binary.BigEndian, int32(len(b2)))
+		stream.Write(b2)
+		fieldOff = offs[spec.Field]
+		want = [][]byte{b1, b2}
+	}
+	all := stream.Bytes()
+	cut := fieldOff + spec.Split
+	x.Raw(all[:cut])
+	w.Quiesce()
+	switch spec.Between {
+	case "message":
+		p.Cmd("PUB t", []byte("between"))
+		p.Next()
+		w.Quiesce()
+	case "heartbeat":
+		w.Sleep(1100 * time.Millisecond)
+	}
+	x.Raw(all[cut:])
+	w.Quiesce()
+	w.Sleep(200 * time.Millisecond)
+	var got [][]byte
+	okSeen, closed := false, false
+	for _, f := range x.Take() {
+		switch {
+		case f.Type == frameTypeMessage:
+			if f.Body != "between" {
+				got = append(got, []byte(f.Body))
+			}
+		case f.Type == frameTypeResponse && string(f.Data) == "OK":
+			okSeen = true
+		case f.Type == frameTypeError:
+			bad("C07 C09 valid publish refused", "the publish was answered %q", f.Data)
+		}
+	}
+	x.Poll()
+	closed = x.Closed
+	if !okSeen {
+		bad("C07 C09 valid publish refused", "no OK for a publish whose length field arrived in two pieces (connection closed: %v)", closed)
+	}
+	if len(got) != len(want) {
+		bad("C07 body not delivered byte-for-byte", "published %d bodies (%d, %d bytes), received %d", len(want), len(b1), len(b2), len(got))
+	}
+	for i := 0; i < len(got) && i < len(want); i++ {
+		if !bytes.Equal(got[i], want[i]) {
+			bad("C07 body not delivered byte-for-byte", "body %d: published %d bytes, received %d bytes", i, len(want[i]), len(got[i]))
+		}
+	}
+	return vx.Out{Obs: fmt.Sprintf("ok=%v bodies=%d closed=%v", okSeen, len(got), closed), Viol: viol}
+}
